@@ -211,6 +211,110 @@ def subclass_case(i_seed):
     return ("ok", shape, base.__name__)
 
 
+def originless_case(i_seed):
+    """(a) Rules that declare constraints but no origin type (enum / const / regex / length only), bare and as element, value
+    and field types: an accepted result satisfies the constraint; (b) a plain user class without a converter as element /
+    value / field type under unresolved_types throw / init: an accepted result holds instances of the class"""
+    import warnings, re
+    warnings.simplefilter("ignore")
+    import utype
+    from utype import Schema, Rule, Options, Field
+    from utype.utils.transform import type_transform
+    from typing import List, Dict, Optional, Tuple, Mapping
+    rng = random.Random(i_seed)
+    vals = [None, "WARN", "warn", 1, "1", True, 0, "", "abc", "abcd", [1], b"abc", 2.5, "a-b"]
+    v = rng.choice(vals)
+    if rng.random() < 0.55:
+        kind = rng.choice(["enum", "const", "regex", "length", "max_length"])
+        cons = {"enum": {"enum": ["WARN", "ERROR", 1]}, "const": {"const": 1}, "regex": {"regex": "[a-z]+"},
+                "length": {"length": 3}, "max_length": {"max_length": 3}}[kind]
+        R = type("NoOrigin", (Rule,), dict(cons))
+
+        def sat(x):
+            if kind == "enum": return any(x == m and type(x) is type(m) or x == m for m in cons["enum"]) and x is not None
+            if kind == "const": return x == 1 and x is not None
+            if kind == "regex": return x is not None and re.fullmatch("[a-z]+", str(x)) is not None
+            if kind == "length": return hasattr(x, "__len__") and len(x) == 3 or (not hasattr(x, "__len__") and x is not None and len(str(x)) == 3)
+            return x is not None and len(x if hasattr(x, "__len__") else str(x)) <= 3
+        shape = rng.choice(["bare", "list", "dict", "field", "field-noann"])
+        try:
+            if shape == "bare":
+                got = [R(v)]
+            elif shape == "list":
+                got = list(type_transform([v, "abc"], Rule.parse_annotation(List[R])))[:1]
+            elif shape == "dict":
+                got = [type_transform({"a": v}, Rule.parse_annotation(Dict[str, R]))["a"]]
+            elif shape == "field":
+                K = type("NoH", (Schema,), {"__annotations__": {"f": R}})
+                got = [K(f=v).f]
+            else:
+                K = type("NoH2", (Schema,), {"f": Field(**cons)})
+                got = [K(f=v).f]
+        except Exception:
+            return ("rejected", "originless-" + kind)
+        for x in got:
+            if not sat(x):
+                return ("nonconforming", "an origin-less Rule with %r (shape %s) accepted %r and returned %r, which does not satisfy it" % (cons, shape, v, x), "x")
+        return ("ok", "originless-" + kind)
+
+    class Point:
+        def __init__(self, v):
+            if isinstance(v, (list, dict)):
+                raise TypeError("no")
+            self.v = v
+    policy = rng.choice(["throw", "init"])
+    opts = Options(unresolved_types=policy)
+    val = rng.choice([5, "x", None, Point(1), [1], 2.5])
+    shape = rng.choice(["dict", "mapping", "list", "tuple", "nested", "field", "param"])
+    try:
+        if shape == "dict":
+            got = list(type_transform({"a": val}, Rule.parse_annotation(Dict[str, Point]), options=opts).values())
+        elif shape == "mapping":
+            got = list(type_transform({"a": val}, Rule.parse_annotation(Mapping[str, Point]), options=opts).values())
+        elif shape == "list":
+            got = list(type_transform([val], Rule.parse_annotation(List[Point]), options=opts))
+        elif shape == "tuple":
+            got = [type_transform([val, 1], Rule.parse_annotation(Tuple[Point, int]), options=opts)[0]]
+        elif shape == "nested":
+            got = list(type_transform({"x": {"a": val}}, Rule.parse_annotation(Dict[str, Dict[str, Point]]), options=opts)["x"].values())
+        elif shape == "field":
+            K = type("PtH", (Schema,), {"__annotations__": {"p": Dict[str, Point], "q": List[Point]}, "q": Field(default_factory=list), "__options__": opts})
+            k = K(p={"a": val}, q=[val])
+            got = list(k.p.values()) + list(k.q)
+        else:
+            seen = []
+
+            @utype.parse(options=opts)
+            def fn(p: Dict[str, Point]):
+                seen.append(p)
+            fn({"a": val})
+            got = list(seen[0].values())
+    except Exception:
+        return ("rejected", "unresolved-" + policy)
+    for x in got:
+        if not isinstance(x, Point):
+            return ("nonconforming", "a place declared as the plain class Point (no converter, unresolved_types=%r, shape %s) holds %r" % (policy, shape, x), "x")
+    return ("ok", "unresolved-" + policy)
+
+
+def originless_suite(res, tier, seed):
+    n = 3000 if tier == "quick" else 50000
+    outs = core.pool_map(originless_case, [seed * 1000187 + i for i in range(n)])
+    agg, bad = {}, []
+    for o in outs:
+        if isinstance(o, tuple):
+            agg[o[0] + ":" + (o[1] if o[0] != "nonconforming" else "")] = agg.get(o[0] + ":" + (o[1] if o[0] != "nonconforming" else ""), 0) + 1
+            if o[0] == "nonconforming":
+                bad.append(o[1])
+    res.add_suite("originless-unresolved", n, n, ["seeded: Rules without an origin type; a plain class without a converter as element / value / field / parameter type"],
+                  "Rules declaring only enum / const / regex / length / max_length (bare, List element, Dict value, annotated and "
+                  "un-annotated Schema field) over inputs including None: an accepted result satisfies the constraint; a plain user class "
+                  "as Dict / Mapping value, List element, Tuple item, nested value, Schema field and function parameter type under "
+                  "unresolved_types throw / init: every accepted place holds an instance of the class", dict(failures=len(bad), outcomes=agg))
+    for m in bad[:3]:
+        res.violations.append(dict(case=repr(dict(kind="originless-unresolved")), observed=m, what=m))
+
+
 def subclass_suite(res, tier, seed):
     n = 4000 if tier == "quick" else 60000
     outs = core.pool_map(subclass_case, [seed * 1000081 + i for i in range(n)])
@@ -240,6 +344,7 @@ def main(tier, seed):
     parsesuite.run_suite(res, cases, "parse")
     conf_suite(res, tier, seed)
     subclass_suite(res, tier, seed)
+    originless_suite(res, tier, seed)
     findings.replay_all(res, PID, {"C01-lax-kind": lax_kind_finding})
     res.violations = res.violations[:3]
     return core.finish(res, "make -C coq Props/C01.vo && coqc (Print Assumptions audit)", "see suites", search=None,
